@@ -2,6 +2,9 @@ import JSight.Ast
 import JSight.LoaderProofs
 import JSight.LoaderTreeMirrors
 import JSight.LoaderTreeDup
+import JSight.AstTextThm
+import JSight.AstTextTree
+import JSight.AnnotExamples
 /-!
 # C16 — GetAST mirrors the schema text: the decision logic that is a theorem
 
@@ -124,5 +127,135 @@ theorem C16_text_duplicate_key (v : Tree) (hv : v.Valid) (ws0 ws1 : List Cls)
 /-- every plain-JSON text either loads into the mirror of its tree or has a duplicate key -/
 theorem C16_text_total (src : Array UInt8) (v : SchemaScan.Tree) (o : Nat) :
     Loader.KeysDistinct src o v ∨ ∃ p, Loader.DupAt src p o v := Loader.keys_dichotomy src v o
+
+/-! ### text → AST with rules, values, sources and notes (`AstText.astOfText`, tied by `c16-text`)
+
+`astOfText` = scanner model → loader model → the AST builders of the library (`ASTNode()` of the nodes and of the
+constraints, with what the constraint constructors keep of a rule value). `astOfScalar tok pairs note` is the spec on
+the TREE of an annotated scalar: one literal node, token kind and (unquoted) literal value of the example, schema type
+by `Ast.schemaType`, one rule node per (name, value) pair as written, in written order, the note trimmed. -/
+
+open Lay SchemaScan in
+/-- **annotated scalar, text → AST** (partial: top-level scalar; rule objects with bare names and scalar values; the
+class excluded is explicit and decidable: no rule is named `enum` / `allOf` / `or`, whose values are lists). For
+every layout the grammar allows — `//` or `/* */` form, blanks, line breaks inside `/* */`, trailing comma, blanks
+around the note — the model's AST of the TEXT is the AST of the TREE (value token, (name, value) pairs in written
+order, note). -/
+theorem C16_ast_of_annotated_tree_partial (a : Ann) (ha : a.isAnn = true) (tok s1 s2 : List UInt8) (ob : BObj)
+    (s3 n1 note tl : List UInt8) (hv : AnnValidN a tok s1 s2 ob s3 n1 note tl)
+    (he : ∀ p ∈ ob.pairs, p.1 ∉ AstText.embNames) :
+    AstText.astOfText (annTextNB a tok s1 s2 ob s3 n1 note tl) = AstText.astOfScalar tok ob.pairs note :=
+  AstText.ast_annot_note a ha tok s1 s2 ob s3 n1 note tl hv he
+
+open Lay SchemaScan in
+/-- the same without a note: `tok // {rules}` / `tok /* {rules} */` -/
+theorem C16_ast_of_annotated_tree_partial_no_note (a : Ann) (ha : a.isAnn = true) (tok s1 s2 : List UInt8) (ob : BObj)
+    (s3 tl : List UInt8) (hv : AnnValid a tok s1 s2 ob s3 tl) (he : ∀ p ∈ ob.pairs, p.1 ∉ AstText.embNames) :
+    AstText.astOfText (annTextB a tok s1 s2 ob s3 tl) = AstText.astOfScalar tok ob.pairs [] :=
+  AstText.ast_annot a ha tok s1 s2 ob s3 tl hv he
+
+/-- the value of every scalar rule node is the value text as written (quotes and escapes of a string resolved);
+no comment, no properties, no items; source manual -/
+theorem C16_rule_value_as_written (name v : AstText.Bytes) (t : String) (val c : AstText.Bytes) (s : AstText.Src)
+    (p : List (AstText.Bytes × AstText.RNode)) (i : List AstText.RNode)
+    (h : AstText.scalarRule name v = .ok (.mk t val c s p i)) :
+    (val = v ∨ val = Unquote.unquote v) ∧ c = [] ∧ s = .manual ∧ p = [] ∧ i = [] :=
+  AstText.scalarRule_as_written name v t val c s p i h
+
+/-- **`@A`** gives a reference node carrying the name, the synthesised `type` rule marked generated (the loader
+model adds that rule when the shortcut ends: `AstText.shortcut_step`) -/
+theorem C16_shortcut_reference_nodes (src : Array UInt8) (evs : List SchemaScan.Ev) (n : Loader.Node) (vb ve b e : Nat)
+    (hk : n.kind = .mixed) (hv : n.value = some (vb, ve)) (hr : n.rules = [.inr "type"])
+    (hrv : n.ruleVals = [some (b, e)]) (hp : AstText.hasPipe (Loader.trimSpaces (Loader.slice src vb ve)) = false) :
+    AstText.ownOf src evs n = .ok ⟨"reference", Loader.trimSpaces (Loader.slice src vb ve),
+      Loader.trimSpaces (Loader.slice src vb ve), AstText.noteOf src n,
+      [(AstText.sb "type", AstText.leaf
+        (if AstText.isUserTypeName (AstText.unq (Loader.trimSpaces (Loader.slice src b e))) then "reference" else "string")
+        (AstText.unq (Loader.trimSpaces (Loader.slice src b e))) .generated)]⟩ :=
+  AstText.ownOf_shortcut_type src evs n vb ve b e hk hv hr hrv hp
+
+/-- **`@A | @B`** gives a reference node carrying the names as written, SchemaType `mixed`, and the synthesised `or`
+rule — one item per name in written order — marked generated throughout -/
+theorem C16_shortcut_reference_nodes_or (src : Array UInt8) (evs : List SchemaScan.Ev) (n : Loader.Node)
+    (vb ve b e : Nat) (hk : n.kind = .mixed) (hv : n.value = some (vb, ve)) (hr : n.rules = [.inr "or"])
+    (hrv : n.ruleVals = [some (b, e)]) (hp : AstText.hasPipe (Loader.trimSpaces (Loader.slice src vb ve)) = true) :
+    AstText.ownOf src evs n = .ok ⟨"reference", AstText.sb "mixed", Loader.trimSpaces (Loader.slice src vb ve),
+      AstText.noteOf src n,
+      [(AstText.sb "or", .mk "array" [] [] .generated []
+        ((AstText.splitPipe (Loader.slice src b e)).map fun nm => AstText.leaf "string" nm .generated))]⟩ :=
+  AstText.ownOf_shortcut_or src evs n vb ve b e hk hv hr hrv hp
+
+/-- the loader model's step that synthesises the rule of a shortcut -/
+theorem C16_shortcut_rule_synthesised (src : Array UInt8) (st : Loader.St) (i b e : Nat) (hm : st.mode = .default)
+    (hl : st.last = some i) :
+    Loader.step src st ⟨.tsE, b, e⟩ = .ok (Loader.updNode st i (fun n =>
+      { n with rules := n.rules ++ [.inr (if Loader.hasPipe (Loader.slice src b e) then "or" else "type")],
+               ruleVals := n.ruleVals ++ [some (b, e)] })) :=
+  AstText.shortcut_step src st i b e hm hl
+
+open Lay SchemaScan in
+/-- **two layouts of one annotated tree give the same AST**: same value token, same (name, value) pairs in the same
+order, same note text — whatever form (`//` or `/* */`), blanks, line breaks and trailing comma each layout uses -/
+theorem C16_ast_ignores_layout (a a' : Ann) (ha : a.isAnn = true) (ha' : a'.isAnn = true) (tok : List UInt8)
+    (s1 s2 : List UInt8) (ob : BObj) (s3 n1 note tl : List UInt8)
+    (s1' s2' : List UInt8) (ob' : BObj) (s3' n1' tl' : List UInt8)
+    (hv : AnnValidN a tok s1 s2 ob s3 n1 note tl) (hv' : AnnValidN a' tok s1' s2' ob' s3' n1' note tl')
+    (hsame : ob.pairs = ob'.pairs) (he : ∀ p ∈ ob.pairs, p.1 ∉ AstText.embNames) :
+    AstText.astOfText (annTextNB a tok s1 s2 ob s3 n1 note tl)
+      = AstText.astOfText (annTextNB a' tok s1' s2' ob' s3' n1' note tl') :=
+  AstText.ast_layout_note a a' ha ha' tok s1 s2 ob s3 n1 note tl s1' s2' ob' s3' n1' tl' hv hv' hsame he
+
+/-! Non-vacuity: `1 // {min: 0, max :5, } - first id` and `1 /*⏎ {min: 0,⏎ max: 5⏎}⏎-  first id*/⏎` -/
+theorem exPairs_not_emb : ∀ p ∈ Lay.Ex.obInl.pairs, p.1 ∉ AstText.embNames := by decide +kernel
+
+example := C16_ast_of_annotated_tree_partial .inline rfl Lay.Ex.one [32] [32] Lay.Ex.obInl [32] [32] Lay.Ex.noteTxt []
+  Lay.Ex.annInlN_valid exPairs_not_emb
+example := C16_ast_of_annotated_tree_partial_no_note .multi rfl Lay.Ex.one [32] [10, 32] Lay.Ex.obMl [10] [42, 47, 10]
+  Lay.Ex.annMl_valid (Lay.Ex.same_pairs ▸ exPairs_not_emb)
+example := C16_ast_ignores_layout .inline .multi rfl rfl Lay.Ex.one [32] [32] Lay.Ex.obInl [32] [32] Lay.Ex.noteTxt []
+  [32] [10, 32] Lay.Ex.obMl [10] [32, 32] [42, 47, 10] Lay.Ex.annInlN_valid Lay.Ex.annMlN_valid Lay.Ex.same_pairs
+  exPairs_not_emb
+/-- and the AST of that tree is not an error: a `number` node with value `1`, the note and the two rules in order -/
+example : (match AstText.astOfScalar Lay.Ex.one Lay.Ex.obInl.pairs Lay.Ex.noteTxt with
+    | .ok (.mk _ _ tok _ v c rules _) =>
+      tok == "number" && v == [49] && c == Lay.Ex.noteTxt && rules.map (·.1) == [Lay.Ex.nMin, Lay.Ex.nMax]
+    | .error _ => false) = true := by decide +kernel
+/-- the shortcut step on a fresh mixed node -/
+example := C16_shortcut_rule_synthesised #[64, 65] { nodes := #[{ kind := .mixed, parent := none }], last := some 0 } 0 0 1 rfl rfl
+
+/-! ### plain-JSON schema texts of any depth: text → AST -/
+
+open Loader in
+/-- **one node per example value in source order, any depth** (no annotations): for every byte-level value tree with
+any white-space layout (blanks, tabs, LF / CR / CRLF wherever JSON allows white space) and pairwise distinct keys
+per object, the model's AST of the TEXT is the AST of the TREE (`AstText.astB`): token kind and unquoted literal
+value per scalar, `array` / `object` nodes with their children in source order, the decoded key of each member,
+schema type = JSON kind, no rules, no note. -/
+theorem C16_ast_of_plain_tree (t : BT) (hv : t.cls.Valid) (ws0 ws1 : List UInt8)
+    (h0 : SchemaScan.IsWs (ws0.map SchemaScan.classify)) (h1 : SchemaScan.IsWs (ws1.map SchemaScan.classify))
+    (hd : t.KeysDistinct) :
+    AstText.astOfText (ws0 ++ (t.render ++ ws1)) = AstText.astB t ([], false) :=
+  AstText.ast_plain_tree t hv ws0 ws1 h0 h1 hd
+
+open Loader in
+/-- two layouts of one plain tree (same tokens, same structure: equal tree ASTs) give the same AST -/
+theorem C16_ast_ignores_layout_plain (t t' : BT) (hv : t.cls.Valid) (hv' : t'.cls.Valid)
+    (ws0 ws1 ws0' ws1' : List UInt8)
+    (h0 : SchemaScan.IsWs (ws0.map SchemaScan.classify)) (h1 : SchemaScan.IsWs (ws1.map SchemaScan.classify))
+    (h0' : SchemaScan.IsWs (ws0'.map SchemaScan.classify)) (h1' : SchemaScan.IsWs (ws1'.map SchemaScan.classify))
+    (hd : t.KeysDistinct) (hd' : t'.KeysDistinct) (hs : AstText.astB t ([], false) = AstText.astB t' ([], false)) :
+    AstText.astOfText (ws0 ++ (t.render ++ ws1)) = AstText.astOfText (ws0' ++ (t'.render ++ ws1')) :=
+  AstText.ast_plain_tree_layout t t' hv hv' ws0 ws1 ws0' ws1' h0 h1 h0' h1' hd hd' hs
+
+/-- non-vacuity: ` {⏎"a\n" :⏎ [1, true,␍⏎⇥-0.50 ] ,⏎⏎ "\u00e9": { }⏎}⏎ ` -/
+example := C16_ast_of_plain_tree Loader.sampleBT (by rw [Loader.sampleBT_cls]; exact SchemaScan.sampleTree_valid) [32] [10, 32]
+  (by intro c h; simp at h; subst h; decide) (by intro c h; simp at h; rcases h with h | h <;> subst h <;> decide)
+  Loader.sampleBT_distinct
+/-- its tree AST: an object with the members `a⏎` (an array of three scalars) and `é` (an empty object) -/
+example : (match AstText.astB Loader.sampleBT ([], false) with
+    | .ok (.mk _ _ tok _ _ _ _ [.mk k1 _ t1 _ _ _ _ [_, _, .mk _ _ t13 _ v13 _ _ _], .mk k2 _ t2 _ _ _ _ []]) =>
+      tok == "object" && k1 == [97, 10] && t1 == "array" && t13 == "number" && v13 == [45, 48, 46, 53, 48]
+        && k2 == [195, 169] && t2 == "object"
+    | _ => false) = true := by decide +kernel
 
 end Props.C16
